@@ -646,8 +646,8 @@ def ResolveBinaryExpressionType(
         assert rightShape
 
         # At this point, must be a MUL of matrix * vector or matrix * matrix
-        # We must prevent vector * vector
-        if leftShape[1] != rightShape[0]:
+        # We must prevent vector * vector, the left side has to be a matrix
+        if not left.IsMatrix() or leftShape[1] != rightShape[0]:
             Errors.ERROR_INVALID_BINARY_EXPRESSION_OPERATION.Raise(
                 operation, left, right
             )
